@@ -18,6 +18,10 @@ seeded sample in quick), persistent resource-exhaustion faults (every call of th
 two-fault sequences (plausible first fault, then a second one at every call that still follows).
 close/exit/munmap/allocator calls are never failed. Parametrised families (spawn_combo: all 64 stdio combinations,
 fs_read_size) run a seeded subset of parameter values in quick and all of them in thorough.
+Further dimensions: SCM_RIGHTS receive with control buffers of every size class, a "low descriptors free" mode
+(0 / 0,1 / 0,1,2 closed during the window), and argument-domain variants (probes/fd_probe/src/args.rs: extreme or
+invalid timeouts, paths, buffers, addresses, argv/env strings, ids; un-injected + sampled single faults), filed
+under "<operation>~args".
 A leak that the un-injected run of the same scenario shows as well is charged to the un-injected signature
 only, so that one defect does not produce one signature per fault position.
 """
@@ -106,6 +110,8 @@ QUICK_EXTRA = 6000        # quick: sampled (position, errno) cells outside the p
 QUICK_PAIRS = 4000        # quick: sampled two-fault cells
 QUICK_FAMILY = {"spawn_combo": 10, "fs_read_size": 8}   # quick: parameter values per family (default: all)
 LOW_MASKS = (1, 3, 7)     # "low descriptors free" mode: 0 / 0,1 / 0,1,2 closed during the window
+QUICK_ARGCELLS = 3000     # quick: sampled (argument variant, position, plausible errno) cells
+ARGIDS = set()            # plan ids of the argument-domain variants (filled by run)
 QUICK_LOW = 2500          # quick: sampled (scenario, mask, position, plausible errno) cells in that mode
 PAIR_ERRNOS_QUICK = 2
 
@@ -454,16 +460,28 @@ def run(ck, replay=None):
     r = vlib.run_one([probe, "list"], timeout=30)
     names = {}     # plan id (= scenario id + 1000 * parameter) -> scenario name ("family:param" for families)
     family = {}    # plan id -> family name for parametrised scenarios
+    famid = {}
     for ln in r["out"].splitlines():
         p = ln.split()
         if len(p) == 3:
             sid, nm, npar = int(p[0]), p[1], int(p[2])
-            if npar <= 1:
+            if nm.startswith("arg_"):
+                famid[nm] = sid     # argument-domain families: valid parameter values come from `variants`
+            elif npar <= 1:
                 names[sid] = nm
             else:
                 for par in range(npar):
                     names[sid + 1000 * par] = "%s:%d" % (nm, par)
                     family[sid + 1000 * par] = nm
+    # argument-domain variants: "<family> <param> <operation> <label>"; filed under "<operation>~args"
+    r = vlib.run_one([probe, "variants"], timeout=30)
+    for ln in r["out"].splitlines():
+        p = ln.split()
+        if len(p) == 4 and p[0] in famid:
+            pid = famid[p[0]] + 1000 * int(p[1])
+            names[pid] = "%s~args:%s" % (p[2], p[3])
+            family[pid] = p[0]
+            ARGIDS.add(pid)
     if not names:
         ck.note_inconclusive("fd_probe list produced nothing: %s" % r["err"][-300:])
         return "no scenarios"
@@ -506,6 +524,8 @@ def _run(ck, quick, probe, sysmon, names, family, workdir, only, rep):
         cid += 1
         base_cases.append(Case(i, cid))
     for i in order:
+        if i in ARGIDS:
+            continue
         for m in LOW_MASKS:
             cid += 1
             base_cases.append(Case(i, cid, low=m))
@@ -549,11 +569,16 @@ def _run(ck, quick, probe, sysmon, names, family, workdir, only, rep):
     ck.count("fault_positions", len(plans))
     extra = []
     lowcells = []
+    argcells = []
     for scn, scope, nr, k, idx, low in plans:
         plaus = [E[n] for n in PLAUSIBLE.get(nrname(nr), DEFAULT_ERRNOS)]
         if low:
             # low-descriptor mode: single plausible faults only (thorough: all, quick: seeded sample)
             lowcells += [(scn, scope, nr, k, idx, en, low) for en in plaus]
+            continue
+        if scn in ARGIDS:
+            # argument-domain variants: single plausible faults on top (thorough: all, quick: seeded sample)
+            argcells += [(scn, scope, nr, k, idx, en, 0) for en in plaus]
             continue
         # every plausible errno at every position ...
         for en in plaus:
@@ -577,7 +602,11 @@ def _run(ck, quick, probe, sysmon, names, family, workdir, only, rep):
     if quick and not rep:
         rng.shuffle(lowcells)
         lowcells = lowcells[:QUICK_LOW]
-    for scn, scope, nr, k, idx, en, low in lowcells:
+    if quick and not rep:
+        rng.shuffle(argcells)
+        argcells = argcells[:QUICK_ARGCELLS]
+    ck.count("argument_variant_fault_cells", len(argcells))
+    for scn, scope, nr, k, idx, en, low in lowcells + argcells:
         cid += 1
         cases.append(Case(scn, cid, scope, nr, k, -en, idx, low=low))
     if rep and rep.get("fault"):
@@ -598,7 +627,7 @@ def _run(ck, quick, probe, sysmon, names, family, workdir, only, rep):
             continue
         report(ck, names, c, w, base_leaks.get((c.scn, c.low)), base_other.get((c.scn, c.low)))
         # ---------------- phase 3 plan: a second fault at every call that follows the first one ----------------
-        if c.low or c.count != 1 or not w.inj_hit or -c.ret not in [E[n] for n in PLAUSIBLE.get(nrname(c.nr), DEFAULT_ERRNOS)]:
+        if c.low or c.scn in ARGIDS or c.count != 1 or not w.inj_hit or -c.ret not in [E[n] for n in PLAUSIBLE.get(nrname(c.nr), DEFAULT_ERRNOS)]:
             continue
         hit = [e for e in w.parent_seq + w.child_seq if e.inj]
         if len(hit) != 1:
@@ -659,6 +688,10 @@ def report(ck, names, c, w, base_leaks, base_other=None):
     name = names[c.scn].split(":")[0] + ("@low" if c.low else "")
     if c.low:
         ck.count("windows_low_descriptors_free")
+    if c.scn in ARGIDS:
+        ck.count("windows_argument_variants")
+        if not c.injected:
+            ck.count("argument_variants")
     ck.add_eval(1)
     ck.count("windows")
     ck.count("syscalls_in_windows", w.nsys)
